@@ -8,14 +8,31 @@ import vlib
 
 PAGE = 4096
 F_NOOVER, F_NOEXT, F_PAGE, F_NOSTATS, F_SOLID, F_SYNCBM = 1, 2, 4, 8, 16, 32
-E_NOSPACE, E_NOTALIGNED, E_SEG, E_INVARGS = 74001, 74003, 74004, 70017
+E_NOSPACE, E_NOTALIGNED, E_SEG, E_INVARGS, E_MAXOFF, E_OVERFLOW = 74001, 74003, 74004, 70017, 73004, 70019
+U32MAX = (1 << 32) - 1
 WCAP = 3 * PAGE  # at most this many bytes of a region carry a pattern
 GROW_CAP = 8 * PAGE  # bitmap bytes (262144 blocks) after which a script stops extending the bitmap
 EDGE_CAP = 4 * PAGE  # the boundary / full-file rounds grow the bitmap themselves only below this size
-# findings on the unchanged library that are tolerated by default and reported when named in VERIF_FSM_OPEN (comma list / all):
-#   assert : the range guard of _fsm_set_bit_status_lw is preceded by an assert() on the same caller-controlled condition,
-#            so a debug build aborts on an out-of-range release / status query instead of refusing it (fixes/fsm-setbit-assert.diff)
-OPEN = set(x for x in os.environ.get("VERIF_FSM_OPEN", "").replace("all", "assert").split(",") if x)
+# Findings on the unchanged library whose patch (fixes/fsm-*.diff) is not committed yet.  Each is tied to one position of the
+# code-variant string read from the source (variant_of_source): while the source still has the old text the finding is
+# counted in the evidence distribution and the script ends there (default), or it is reported as a violation when named in
+# VERIF_FSM_OPEN (comma list / all); as soon as the source carries the fix there is no tolerance at all.
+#   realloc : _fsm_reallocate releases the header / the allocator's own bitmap / inserts an empty extent for an empty
+#             old region (no guard as in _fsm_deallocate)                                   fixes/fsm-realloc-guard.diff
+#   hint    : a hint address or a request of 2^32 blocks or more makes every lookup fail: NO_FREE_SPACE although space is
+#             free, or the bitmap grows until the file cannot grow any more                  fixes/fsm-alloc-overflow.diff
+#   leak    : a bitmap growth that fails in _fsm_init_lw (file size limit) leaves the blocks carved out for the new
+#             bitmap allocated for good                                                      fixes/fsm-resize-leak.diff
+# (assert : fixes/fsm-setbit-assert.diff is committed - a failing range assert is a violation, always.)
+KNOWN = {"realloc": 4, "hint": 5, "leak": 6}
+OPEN = set(x for x in os.environ.get("VERIF_FSM_OPEN", "").replace("all", ",".join(KNOWN)).split(",") if x)
+VARIANT = None   # set per run (variant_of_source)
+
+
+def tolerated(name):
+    """the finding `name` is known, its patch is not in the source under test, and it was not asked to be reported"""
+    v = VARIANT if VARIANT is not None else variant_of_source()
+    return v[KNOWN[name]] == "0" and name not in OPEN
 M64 = (1 << 64) - 1
 
 
@@ -158,6 +175,17 @@ class Oracle:
         self.pre_close = None
         self.v = []       # (property, message)
         self.cnt = {}     # which case splits the script reached (evidence distribution only)
+        self.stop = False  # a tolerated known finding was hit: the map is no longer what the client thinks, the script ends
+        self.maxoff = 0   # exfile size limit of the script (0 = none)
+
+    def known(self, name, prop, msg):
+        """a consequence of the known finding `name`: counted and the script ends (patch not committed, not asked for),
+        otherwise a violation"""
+        if name is not None and tolerated(name):
+            self.count("open finding '%s' (fixes not committed; VERIF_FSM_OPEN=%s reports it)" % (name, name))
+            self.stop = True
+        else:
+            self.bad(prop, msg)
 
     def count(self, k):
         self.cnt[k] = self.cnt.get(k, 0) + 1
@@ -185,12 +213,9 @@ class Oracle:
 
     def user_assert(self, line, u):
         if self.ends_beyond(line):
-            # the release build refuses the request (checked by the caller of this function through rc and the state);
-            # a debug build aborts in assert() one line before the check that refuses it
-            self.count("out-of-range request trips assert(bmlen * 8 >= offset_bits + length_bits) (debug builds abort)")
-            if "assert" in OPEN:
-                self.bad("C10", "%s: a request that ends behind the bitmap fails an assert() of _fsm_set_bit_status_lw "
-                                "before the guard that refuses it (a debug build aborts instead of returning an error)" % line)
+            # fixed by 6e3c8a6 (fixes/fsm-setbit-assert.diff): no tolerance any more
+            self.bad("C10", "%s: a request that ends behind the bitmap fails an assert() of _fsm_set_bit_status_lw "
+                            "before the guard that refuses it (a debug build aborts instead of returning an error)" % line)
         else:
             self.bad("C11", "%s: the range assert of _fsm_set_bit_status_lw failed for a request inside the bitmap (count %d -> %d)" % (
                 line, self.users, u))
@@ -206,6 +231,34 @@ class Oracle:
             if x != y:
                 return "%s %s -> %s" % (nm, str(x)[:120], str(y)[:120])
         return None
+
+    def hint_rules(self, line, ln, hint, fl, rc, prev, s):
+        """the address hint is a hint: whether a request can be served does not depend on it.  (a) with NO_EXTEND the
+        answer NO_FREE_SPACE is right only if no free run holds the request; (b) the bitmap does not grow while a free
+        run holds the request; (c) a request that no file can hold (2^32 blocks or more: extents are 32-bit) is refused
+        with everything unchanged.  Page-aligned requests aside (their fit depends on the alignment of the runs)."""
+        bp = prev.M[3]
+        want = roundup(ln, 1 << bp) >> bp
+        hb = (hint & M64) >> bp
+        big_hint = hb > U32MAX
+        if big_hint:
+            self.count("alloc with a hint of 2^32 blocks or more / negative")
+        if want > U32MAX:
+            self.count("alloc of 2^32 blocks or more")
+            if rc == 0 or self.unchanged(prev, s):
+                self.known("hint", "C10", "%s: a request of %d blocks (no extent can hold 2^32 blocks) %s" % (
+                    line, want, "succeeded" if rc == 0 else "failed with rc=%d after changing the state: %s" % (rc, self.unchanged(prev, s))))
+            return
+        if fl & F_PAGE:
+            return
+        fit = any(l >= want for _, l in runs_of(prev.B)[0])
+        if fit and rc == E_NOSPACE:
+            self.known("hint" if big_hint else None, "C10",
+                       "%s: NO_FREE_SPACE although a free run of >= %d blocks exists (hint block %d)" % (line, want, hb))
+        elif fit and s.M[1] != prev.M[1]:
+            self.known("hint" if big_hint else None, "C10",
+                       "%s: the bitmap grew %d -> %d bytes although a free run of >= %d blocks existed (hint block %d), rc=%d" % (
+                           line, prev.M[1], s.M[1], want, hb, rc))
 
     # ---- structural statements, after every operation that prints the state
     def structure(self, s, what):
@@ -246,6 +299,9 @@ class Oracle:
         f = line.split()
         c = f[0]
         if c == "hdr":    # header read-back: compared with the model only (T2)
+            return 0
+        if c == "maxoff":
+            self.maxoff = int(f[1])
             return 0
         rc, vals, s = parse_out(out)
         um = re.search(r" U=(\d+) A=\d+$", out)
@@ -296,13 +352,37 @@ class Oracle:
                     self.bad("C10", "%s: returned region (%d,%d) overlaps live region %s" % (line, a, l, ov))
                 self.live[a] = l
                 self.pat.pop(a, None)
-            elif not (rc == E_NOSPACE and (fl & F_NOEXT)) and not (rc == E_INVARGS and ln <= 0):
+            elif not (rc == E_NOSPACE and (fl & F_NOEXT)) and not (rc == E_INVARGS and ln <= 0) and not (
+                    self.maxoff and rc in (E_MAXOFF, E_OVERFLOW)):
                 self.bad("C10", "%s: allocation failed with rc=%d" % (line, rc))
-            self.structure(s, line)
+            if ln > 0 and prev is not None and not prev.closed and not self.stop:
+                self.hint_rules(line, ln, hint, fl, rc, prev, s)
+            if not self.stop:
+                n1 = len(self.v)
+                self.structure(s, line)
+                if rc == E_MAXOFF and self.maxoff:
+                    # a growth that failed at the file size limit: nothing may stay allocated for the bitmap that was not set up
+                    lost = [x for x in self.v[n1:] if "nobody owns" in x[1]]
+                    if lost:
+                        self.v[n1:] = [x for x in self.v[n1:] if x not in lost]
+                        self.known("leak", "C11", "%s: failed with rc=%d at the file size limit %d and left blocks allocated: %s" % (
+                            line, rc, self.maxoff, lost[0][1][:300]))
         elif c == "realloc":
             nlen, addr, olen, fl = int(f[1]), int(f[2]), int(f[3]), int(f[4])
             self.st = s
             bsz = self.bs()
+            if f[-1] == "meta":      # generator's annotation: the old range is empty or touches the header / the bitmap area
+                self.count("realloc of the header / the bitmap area / an empty region")
+                if rc == 0:
+                    self.known("realloc", "C10", "%s: reallocation of a range that is empty or belongs to the file header / the "
+                               "allocator's bitmap accepted -> %s; header [0,%d) bitmap [%d,+%d)" % (line, vals, prev.M[2], prev.M[0], prev.M[1]))
+                else:
+                    d = self.unchanged(prev, s)
+                    if d:   # (the growing branch allocates - and may relocate the bitmap - before it comes to the old range)
+                        self.known("realloc", "C10", "%s: refused with rc=%d but the state changed: %s" % (line, rc, d))
+                if not self.stop:
+                    self.structure(s, line)
+                return len(self.v) - n0
             if f[-1] == "invalid":   # generator's annotation: the old range does not lie inside the addressable space
                 self.count("realloc-invalid")
                 if rc == 0:
@@ -486,26 +566,45 @@ def gen_script(rng, impl, nops, focus, scripted=None):
     orc = Oracle()
     lines, outs = [], []
 
+    grace = [12]
+
     def do(line):
         out = impl.ask(line)
         lines.append(line)
         outs.append(out)
-        return orc.feed(line, out) == 0 and not out.startswith("CRASHED")
+        n0 = len(orc.v)
+        orc.feed(line, out)
+        new = orc.v[n0:]
+        if out.startswith("CRASHED") or orc.stop or any(p_ == focus for p_, _ in new):
+            return False
+        if new or grace[0] < 12:
+            # the implementation already contradicts the OTHER property of the family (e.g. index != bitmap): a few more
+            # operations are run so that the consequence under this property's statement (e.g. a region handed out twice) shows
+            grace[0] -= 1
+            if grace[0] <= 0:
+                return False
+        return True
 
+    # every script starts with `maxoff n`: the exfile size limit of its opens (0 = none; the harness and the model driver keep
+    # the value across scripts, so it is always stated)
     if scripted is not None:
+        if not scripted[0].startswith("maxoff"):
+            do("maxoff 0")
         for l in scripted:
             if not do(l):
-                return lines, outs, orc, len(lines) - 1
+                return lines, outs, orc, (None if orc.stop and not orc.v else len(lines) - 1)
         return lines, outs, orc, None
 
-    bpow = rng.weighted([(6, 6), (0, 1), (7, 2), (9, 2), (12, 2)])
+    bpow = rng.weighted([(6, 6), (0, 1), (7, 2), (8, 2), (9, 2), (10, 1), (11, 1), (12, 2)])
     strict = rng.chance(1, 2)
     notrim = rng.chance(1, 4)
     mmapall = rng.chance(1, 2)
     hdrlen = rng.choice([0, 0, 64, 100, 255, 4000])
     bmlen = rng.choice([0, 0, 0, 8192])
+    overflow = rng.chance(1, 12)   # script kind "overflow": a file with a size limit, requests no block key can express
+    do("maxoff %d" % (rng.choice([16, 32, 64]) * PAGE if overflow else 0))
     if not do("open %d %d %d %d %d %d" % (bpow, hdrlen, bmlen, strict, notrim, mmapall)):
-        return lines, outs, orc, 0
+        return lines, outs, orc, 1
     seedc = [rng.below(1 << 30)]
     favourite = rng.choice([1, 2, 4, 4, 8])  # scripts dominated by one size produce exact fits
     # script mode.  "mixed": the uniform mix.  "solid": statistics are kept, sizes cluster (so that the over-allocation
@@ -513,7 +612,7 @@ def gen_script(rng, impl, nops, focus, scripted=None):
     # solid space is requested from extents whose remainder reaches into a further page.  "aligned": free-run layouts are
     # laid out around the fit threshold of a page-aligned request (length vs. distance to the next page boundary, no run
     # of request + one page), so that _fsm_blk_allocate_aligned_lw / bitmap relocation / trim take the full scan.
-    mode = rng.weighted([("mixed", 13), ("solid", 3), ("aligned", 4 if bpow not in (12,) else 0)])
+    mode = "overflow" if overflow else rng.weighted([("mixed", 13), ("solid", 3), ("aligned", 4 if bpow not in (12,) else 0)])
     wnum, wden = rng.choice([(0, 1), (1, 8), (1, 3)]) if mode == "solid" else (2, 3)
     orc.count("mode " + mode)
 
@@ -850,8 +949,50 @@ def gen_script(rng, impl, nops, focus, scripted=None):
         k = rng.choice([1, 1, 2, 7, 8, 63, 64])
         tail = rng.choice([0, 0, 0, 1, bsz - 1])       # stray bytes behind the last whole block of the length
         kind = rng.weighted([("in-past", 6), ("at-end", 3), ("beyond", 2), ("far", 1), ("bitmap", 3), ("header", 2),
-                             ("shrink", 3), ("query", 2), ("probe", 3)])
+                             ("shrink", 3), ("query", 2), ("probe", 3), ("re-header", 2), ("re-bitmap", 3), ("re-empty", 1),
+                             ("negative", 1)])
         orc.count("edge request: " + kind)
+        if kind in ("re-header", "re-bitmap", "re-empty"):
+            # reallocate whose OLD range is the header / the allocator's own bitmap (whole, a part, reached from a live
+            # neighbour) or is empty: growing (the whole old range is released after the copy), shrinking (its tail is
+            # released), to zero; must be refused with nothing changed - as deallocate refuses these ranges
+            hb, bb, nbm = hl // bsz, bo // bsz, bl // bsz
+            if kind == "re-header":
+                ob, on = rng.choice([(0, hb), (0, 1), (0, hb + k), (max(hb - 1, 0), 1), (max(hb - 1, 0), 1 + k), (0, hb + 1)])
+            elif kind == "re-bitmap":
+                ob, on = rng.choice([(bb, nbm), (bb, 1), (bb + nbm - 1, 1), (bb + rng.below(nbm), 1), (max(bb - k, hb), k + 1),
+                                     (bb + nbm - 1, 1 + k), (bb, nbm + k), (max(bb - 1, hb), nbm + 2)])
+                near = [a for a in orc.live if a + orc.live[a] == bo]
+                if near and rng.chance(1, 2):      # a live region that ends where the bitmap starts, taken one block too long
+                    ob, on = near[0] // bsz, orc.live[near[0]] // bsz + rng.choice([1, 1, nbm])
+            else:
+                ob, on = rng.choice([(0, 0), (hb, 0), (bb, 0), (rng.choice(sorted(orc.live)) // bsz if orc.live else bb + nbm, 0),
+                                     (nb - 1, 0), (bb + nbm + 5, 0)])
+            ones = runs_of(s.B)[1]
+            if on > 0 and not any(o <= ob and ob + on <= o + l for o, l in ones):
+                # only ranges whose blocks are all allocated (header, bitmap, live regions): with a free block in the old range
+                # the new region may be carved out of it, and the copy of overlapping ranges fails in its own way
+                ob, on = (0, hb) if kind == "re-header" else (bb, nbm)
+            if on > 0:
+                nlb = rng.choice([on + 1, on + k, max(on - 1, 0), 1 if on > 1 else 0, 0, on + 64])
+            else:
+                nlb = rng.choice([1, 1, k, 64])
+            if nlb == on:
+                nlb = on + 1
+            fl2 = (flags() | F_NOOVER) & ~(F_SOLID | F_PAGE | F_SYNCBM)
+            if s.M[1] >= GROW_CAP or nlb > on:
+                # no bitmap relocation inside the request: the old bitmap area would be released and the new region could be
+                # carved out of the old range (copy of overlapping ranges fails in its own way, not modelled)
+                fl2 |= F_NOEXT
+            return do("realloc %d %d %d %d meta" % (max(nlb * bsz - rng.choice([0, 0, 1]), 0) if nlb else 0, ob * bsz, on * bsz, fl2))
+        if kind == "negative":   # off_t arguments below zero: (uint64_t) casts make them huge; refused, nothing changes
+            a = -rng.choice([1, bsz, 2 * bsz, 1 << 40, 1 << 62, (1 << 63) - bsz, 1 << 63]) // bsz * bsz
+            how = rng.below(3)
+            if how == 0:
+                return do("free %d %d invalid" % (a, rng.choice([bsz, d * bsz, -bsz])))
+            if how == 1:
+                return do("free %d %d invalid" % (rng.choice([0, E - bsz, hl]), -rng.choice([1, bsz, 1 << 40, 1 << 62]) // bsz * bsz))
+            return do("chk %d %d %d no" % (a, bsz, rng.below(2)))
         if kind == "in-past":
             a = E - k * bsz
             if a < 0:
@@ -1028,21 +1169,216 @@ def gen_script(rng, impl, nops, focus, scripted=None):
                 return False
         return True
 
+    def do_cache_round():
+        """The cached last free extent (lfbkoff/lfbklen) across a bitmap growth.  Layout, cut out of a full file by partial
+        releases: a free run A in front of the bitmap area and a free run B right behind it, a page-aligned hole of exactly
+        the size of the doubled bitmap (+0..3), a short free tail at the end of the space, everything else live.  Request R:
+        longer than every free run (so the bitmap doubles: the new bitmap lands in the hole, the free tail is extended IN
+        PLACE by the new coverage) but not longer than A + old bitmap + B (so, once the old area is released, R is served
+        from there and the tail extent is not touched).  Then the live piece that ends exactly where the tail starts is
+        released (_fsm_blk_deallocate_lw takes its right neighbour from the cache), then an exact-size and a larger
+        request.  Lengths are perturbed so that neighbouring paths (bitmap lands in B, R served from the tail, no merge)
+        are taken as well."""
+        bsz = orc.bs()
+        au = max(1, PAGE // bsz)
+        if orc.st.M[1] >= EDGE_CAP:
+            return True
+        ok, full = take_all(40, False)
+        if not ok or not full:
+            return ok
+        s = orc.st
+        nbm, bb, nb = s.M[1] // bsz, s.M[0] // bsz, s.nbits()
+        new = 2 * nbm
+        ends = dict((a + l, a) for a, l in orc.live.items())
+        T = ends.get(nb * bsz)
+        if T is None:
+            return True
+        tb = T // bsz
+        A = ends.get(bb * bsz)
+        Bst = (bb + nbm) * bsz if (bb + nbm) * bsz in orc.live else None
+        e = rng.choice([0, 0, 0, 1, 3])
+        R = new + e + rng.choice([1, 1, 2, 10, au])
+        a = min(orc.live[A] // bsz, rng.choice([1, au - 2, 30, 62, 1000])) if A is not None else 0
+        a = max(a, 1) if A is not None else 0
+        b = 0
+        if Bst is not None:
+            b = max(1, R - nbm - a + rng.choice([0, 0, 0, 1, 7, -1]))
+            b = min(b, R - 1, orc.live[Bst] // bsz - 1)
+        t_ = max(1, rng.choice([1, 2, 5, au - 1, au, min(R - 1, 100)]))
+        x = rng.choice([1, 1, 2, 7, au, 63, 64, 65])
+        lo = (bb + nbm + b + 1) if Bst == T else tb + 1      # first block the hole may use
+        p_ = roundup(max(lo, tb + 1), au) + rng.choice([0, 0, 0, au, 3 * au])
+        if b < 1 or p_ + new + e + 1 + x + t_ > nb or t_ >= R or p_ <= tb:
+            return True
+        orc.count("cache round (growth with the tail extended in place)")
+        cuts = [(nb - t_, t_), (p_, new + e)]
+        if Bst is not None:
+            cuts.append((bb + nbm, b))
+        if A is not None:
+            cuts.append((bb - a, a))
+        if rng.chance(1, 2):
+            cuts.reverse()
+        for o, n in cuts:
+            if not do("free %d %d" % (o * bsz, n * bsz)):
+                return False
+        fl = rng.choice([F_NOOVER | F_NOSTATS, F_NOOVER | F_NOSTATS, F_NOSTATS | F_NOOVER | F_SYNCBM * 0, F_NOOVER])
+        if not do("alloc %d %d %d" % (R * bsz - rng.choice([0, 0, 1]), rng.choice([0, 0, (nb - t_) * bsz]), fl)):
+            return False
+        rc, vals, _ = parse_out(outs[-1])
+        if rc != 0:
+            return True
+        if rng.chance(1, 4) and not do("sync"):
+            return False
+        # the live piece in front of the tail: whole or in two steps (the second ends at the tail start, too)
+        if x > 1 and rng.chance(1, 3):
+            if not do("free %d %d" % ((nb - t_ - 1) * bsz, bsz)):
+                return False
+            x -= 1
+            t_ += 1
+        if not do("free %d %d" % ((nb - t_ - x) * bsz, x * bsz)):
+            return False
+        tail = [r_ for r_ in runs_of(orc.st.B)[0] if r_[0] + r_[1] == orc.st.nbits()]
+        for ln in ([x + t_, x + t_ + rng.choice([1, 5, 64])] + ([tail[0][1]] if tail and tail[0][1] < 70000 else [])):
+            ok, _, _ = alloc_line(ln * bsz, rng.choice([0, (nb - t_ - x) * bsz]), F_NOOVER | F_NOSTATS | rng.choice([0, F_NOEXT]))
+            if not ok:
+                return False
+        return make_room()
+
+    def do_small_close():
+        """a SMALL file closed with trim: fewer than 64 blocks are in use behind the end of the bitmap area, and - with block
+        sizes of 256 bytes and more - that end is not a multiple of 64 blocks: _fsm_trim_tail_lw looks for the last used block
+        with a lower bound in the middle of a bitmap word.  The file must end at the page of the last used block; the bytes
+        written there must be readable after the reopen."""
+        bsz = orc.bs()
+        s = orc.st
+        endb = (s.M[0] + s.M[1]) // bsz
+        zr = runs_of(s.B)[0]
+        for o, l in zr:                      # the runs in front of the bitmap area first, so that requests reach the tail
+            if o + l <= endb and l <= 4096:
+                ok, _, _ = alloc_line(l * bsz, o * bsz, F_NOOVER | F_NOSTATS | F_NOEXT, write=False)
+                if not ok:
+                    return False
+        room = 64 - endb % 64                # blocks left in the bitmap word that holds the end of the bitmap area
+        used, got = 0, []
+        for _ in range(rng.range(1, 5)):
+            n = rng.choice([1, 1, 2, 3, max(1, room // 2), max(1, room - used - 1), max(1, room - used)])
+            if used + n > room + rng.choice([0, 0, 0, 2]):
+                break
+            seedc[0] += 1
+            ok = do("alloc %d 0 %d" % (n * bsz - rng.choice([0, 0, 1]), F_NOOVER | F_NOSTATS | F_NOEXT))
+            rc, vals, _ = parse_out(outs[-1])
+            if not ok:
+                return False
+            if rc != 0:
+                break
+            used += n
+            got.append(vals[0])
+            if rng.chance(3, 4) and not do("w %d %d %d" % (vals[0], min(vals[1], WCAP), seedc[0])):
+                return False
+        if len(got) > 1 and rng.chance(1, 3):    # a hole: the last used block is not the last one handed out
+            v = rng.choice(got[:-1]) if rng.chance(2, 3) else got[-1]
+            if v in orc.live and not do("free %d %d" % (v, orc.live[v])):
+                return False
+        orc.count("small-file close (bpow %d, bitmap area ends at block %d)" % (s.M[3], endb))
+        return do_reopen()
+
+    def do_overflow_script():
+        """a file with a size limit (so that a bitmap growth ends): address hints of 2^32 blocks and more / negative ones
+        (an uninitialised *oaddr), with and without NO_EXTEND; the last hint a block key can hold (a legitimate one);
+        requests of 2^32 blocks and more; legitimate requests the limit cannot hold (the growth fails half way: nothing may
+        stay allocated); in between small allocations, releases, close/reopen.  No writes, no solid space, no reallocate to
+        a larger size: these would fail at the size limit by design."""
+        bsz = orc.bs()
+        bp = orc.st.M[3]
+
+        def small():
+            return do("alloc %d %d %d" % (rng.weighted(SIZES_BLK) * bsz, 0, F_NOEXT | F_NOOVER | F_NOSTATS))
+
+        for _ in range(rng.below(6)):
+            if not small():
+                return False
+        for _ in range(rng.range(3, 8)):
+            zr = runs_of(orc.st.B)[0]
+            kind = rng.weighted([("hint-big", 6), ("hint-edge", 2), ("len-big", 2), ("len-edge", 1), ("grow-fail", 2),
+                                 ("small", 2), ("free", 2), ("reopen", 1), ("chk", 1)])
+            orc.count("overflow script: " + kind)
+            fl = rng.choice([0, 0, F_NOEXT, F_NOOVER | F_NOSTATS, F_NOEXT | F_NOOVER | F_NOSTATS, F_NOSTATS, F_NOOVER])
+            ln = rng.weighted(SIZES_BLK) * bsz - rng.choice([0, 0, 1])
+            if zr and rng.chance(1, 3):
+                ln = min(rng.choice(zr)[1], 4096) * bsz
+            if kind == "hint-big":
+                hb = rng.choice([1 << 32, (1 << 32) + 1, 1 << 34, (1 << 40) >> bp, (1 << 62) >> bp, ((1 << 63) - 1) >> bp])
+                hint = rng.choice([hb << bp, hb << bp, (hb << bp) + rng.below(bsz), -1, -bsz, -(1 << 63), -(1 << 40)])
+                if hint >= 1 << 63:
+                    hint = (1 << 63) - 1
+            elif kind == "hint-edge":     # block 2^32 - 1: the last hint a key can hold; and small legitimate ones
+                hint = rng.choice([U32MAX << bp, (U32MAX << bp) + bsz - 1, (U32MAX - 1) << bp, orc.st.nbits() << bp])
+            elif kind == "len-big":
+                hint = 0
+                ln = ((1 << 32) + rng.choice([0, 0, 1, 1000, 1 << 20])) * bsz - rng.choice([0, 1, bsz - 1])
+                if ln >= 1 << 63:
+                    ln = (1 << 63) - 1 - bsz
+                fl |= rng.choice([0, F_PAGE])
+            elif kind == "len-edge":      # 2^32 - 1 blocks: a length a key can hold, but no file under the limit
+                hint = 0
+                ln = U32MAX * bsz - rng.choice([0, 1])
+                if rng.chance(1, 2):
+                    fl |= F_NOEXT
+            elif kind == "grow-fail":     # more than the limit can hold
+                hint = 0
+                ln = orc.maxoff + rng.choice([0, bsz, PAGE, 10 * PAGE])
+            elif kind == "small":
+                if not small():
+                    return False
+                continue
+            elif kind == "free":
+                if not do_free():
+                    return False
+                continue
+            elif kind == "reopen":
+                if not do_reopen():
+                    return False
+                continue
+            else:
+                if not do_chk():
+                    return False
+                continue
+            ok = do("alloc %d %d %d" % (ln, hint, fl))
+            rc, vals, _ = parse_out(outs[-1])
+            if rc == 0 and len(vals) > 1 and vals[1] > roundup(ln, bsz):
+                lines[-1] += " 1"
+            if not ok:
+                return False
+        return True
+
+    if mode == "overflow":
+        ok = do_overflow_script()
+        return lines, outs, orc, (None if ok or (orc.stop and not orc.v) else len(lines) - 1)
+
     wa, wf = (10, 7) if focus == "C10" else (9, 8)
     # rounds aimed at the boundaries of the addressable space (C10) and at close/reopen of a full file (C11): most scripts
     # run one early - while the bitmap is short (the model is linear in its length) - and may run more later
     w_edge, w_full = ((3, 1) if focus == "C10" else (1, 3))
+    if mode == "mixed" and bpow >= 8 and rng.chance(*((1, 3) if focus == "C11" else (1, 6))):
+        if not do_small_close():
+            return lines, outs, orc, (None if orc.stop and not orc.v else len(lines) - 1)
+    elif mode == "mixed" and rng.chance(*((1, 5) if focus == "C10" else (1, 10))):
+        for _ in range(rng.below(4)):
+            if not do_alloc():
+                return lines, outs, orc, (None if orc.stop and not orc.v else len(lines) - 1)
+        if not do_cache_round():
+            return lines, outs, orc, (None if orc.stop and not orc.v else len(lines) - 1)
     if mode == "mixed" and rng.chance(2, 5):
         first = rng.weighted([("edge", w_edge), ("full", w_full)])
         for _ in range(rng.below(6)):
             if not do_alloc():
-                return lines, outs, orc, len(lines) - 1
+                return lines, outs, orc, (None if orc.stop and not orc.v else len(lines) - 1)
         if not (do_edge_round() if first == "edge" else do_full_close()):
-            return lines, outs, orc, len(lines) - 1
+            return lines, outs, orc, (None if orc.stop and not orc.v else len(lines) - 1)
     if mode == "solid" and not do_solid_round():
-        return lines, outs, orc, len(lines) - 1
+        return lines, outs, orc, (None if orc.stop and not orc.v else len(lines) - 1)
     if mode == "aligned" and not do_layout():
-        return lines, outs, orc, len(lines) - 1
+        return lines, outs, orc, (None if orc.stop and not orc.v else len(lines) - 1)
     for _ in range(nops):
         if len(lines) >= 2 * nops + 20:
             break
@@ -1050,7 +1386,8 @@ def gen_script(rng, impl, nops, focus, scripted=None):
                            ("reopen", 1 if focus == "C10" else 2), ("sync", 1), ("clear", 1 if rng.chance(1, 4) else 0),
                            ("freeall", 1 if rng.chance(1, 3) else 0),
                            ("solidround", 2 if mode == "solid" else 0), ("layout", 2 if mode == "aligned" else 0),
-                           ("edgeround", 1 if rng.chance(w_edge, 16) else 0), ("fullclose", 1 if rng.chance(w_full, 16) else 0)])
+                           ("edgeround", 1 if rng.chance(w_edge, 16) else 0), ("fullclose", 1 if rng.chance(w_full, 16) else 0),
+                           ("cacheround", 1 if (mode == "mixed" and rng.chance(1, 12)) else 0)])
         ok = True
         if op == "solidround":
             ok = do_solid_round()
@@ -1058,6 +1395,8 @@ def gen_script(rng, impl, nops, focus, scripted=None):
             ok = do_edge_round()
         elif op == "fullclose":
             ok = do_full_close()
+        elif op == "cacheround":
+            ok = do_cache_round()
         elif op == "layout":
             ok = do_layout()
         elif op == "alloc":
@@ -1085,7 +1424,7 @@ def gen_script(rng, impl, nops, focus, scripted=None):
                     break
             # (the structural statement then demands: set bits = header + bitmap, tree = the runs between them)
         if not ok:
-            return lines, outs, orc, len(lines) - 1
+            return lines, outs, orc, (None if orc.stop and not orc.v else len(lines) - 1)
     return lines, outs, orc, None
 
 
@@ -1097,6 +1436,8 @@ def worker(args):
     """one process: generates scripts against the implementation, applies the oracle, then runs the model on the same
     concrete lines and diffs (in chunks of 40 scripts, so that memory stays flat in the thorough tier)"""
     exe, model, variant, seed, nscripts, nops, focus, corpus = args
+    global VARIANT
+    VARIANT = variant
     rng = vlib.Rng(seed)
     wd = tempfile.mkdtemp(prefix="fsm-w-", dir="/tmp")
     res = {"scripts": 0, "ops": 0, "dist": {}, "viol": [], "mism": [], "err": None, "canon": [], "samples": [], "validated": 0}
@@ -1122,7 +1463,7 @@ def worker(args):
                     res["dist"][k] = res["dist"].get(k, 0) + 1
                 for k, v in orc.cnt.items():
                     res["dist"][k] = res["dist"].get(k, 0) + v
-                ck = "cfg bpow=%s" % lines[0].split()[1]
+                ck = "cfg bpow=%s" % lines[1].split()[1]
                 res["dist"][ck] = res["dist"].get(ck, 0) + 1
                 bml = set(m.group(1) for m in (re.search(r" M=\d+:(\d+):", o) for o in outs) if m)
                 if len(bml) > 1:
@@ -1143,7 +1484,7 @@ def worker(args):
             # diff per script (a script ends where the next `open` starts)
             start, bad_starts = 0, set()
             for i, l in enumerate(all_lines):
-                if l.startswith("open "):
+                if l.startswith("maxoff "):
                     start = i
                 a = strip_a(all_outs[i])
                 b = mout[i] if i < len(mout) else "<missing>"
